@@ -9,7 +9,7 @@ import lib
 from lib import zlit, vlist
 
 LEVEL = "proof"
-UNITS = ["GenGeometryLinks", "GenGeometry"]
+UNITS = ["GenGeometryLinks", "GenGeometryShapes", "GenGeometry"]
 TWO53 = 2 ** 53
 
 # SpiNNaker link numbering (E, NE, N, W, SW, S) -> vector; the oracle's own table, not read from rig
@@ -48,6 +48,22 @@ def mesh_neigh(x0, y0, x1, y1):
     return f
 
 
+def hexn(dx, dy):
+    """mesh distance of a displacement: E/NE/N steps cover max(|dx|, |dy|) when dx, dy have the same sign,
+    |dx| + |dy| = |dx - dy| otherwise"""
+    return max(abs(dx), abs(dy), abs(dx - dy))
+
+
+def lattice_dist(w, h, a, b):
+    """torus distance as the least mesh distance to a copy of b -- used alone only where the graph is too
+    large to search (dimensions up to 2^60); on every graph that IS searched it is compared with BFS"""
+    dx, dy = (b[0] - a[0]) % w, (b[1] - a[1]) % h
+    return min(hexn(dx + i * w, dy + j * h) for i in (-2, -1, 0, 1) for j in (-2, -1, 0, 1))
+
+
+BFS_LIMIT = 70000
+
+
 class Dist(object):
     """memoised single-source distances"""
 
@@ -56,11 +72,16 @@ class Dist(object):
         self.m = {}
 
     def torus(self, w, h, a, b):
+        if w * h > BFS_LIMIT:
+            return lattice_dist(w, h, a, b)
         k = (w, h, a)
         if k not in self.t:
             if len(self.t) > 40 and w * h > 400:
                 self.t = {kk: v for kk, v in self.t.items() if kk[0] * kk[1] <= 400}
             self.t[k] = bfs(torus_neigh(w, h), a)
+        if self.t[k][b] != lattice_dist(w, h, a, b):
+            raise AssertionError("oracle self-check: BFS %d, lattice %d on %dx%d %r->%r"
+                                 % (self.t[k][b], lattice_dist(w, h, a, b), w, h, a, b))
         return self.t[k][b]
 
     def mesh(self, a, b):
@@ -68,11 +89,15 @@ class Dist(object):
         that contains the bounding box of a and b with a margin (the implementation is not told any size)"""
         d = (b[0] - a[0], b[1] - a[1])
         m = max(abs(d[0]), abs(d[1]))
+        if m > 130:                        # too far to search: the closed form, checked against BFS below
+            return hexn(*d)
         R = 4
         while R < m + 1:
             R *= 2
         if R not in self.m:
             self.m[R] = bfs(mesh_neigh(-R, -R, R + 1, R + 1), (0, 0))
+        if self.m[R][d] != hexn(*d):
+            raise AssertionError("oracle self-check: BFS %d, closed form %d for %r" % (self.m[R][d], hexn(*d), d))
         return self.m[R][d]
 
 
@@ -215,6 +240,11 @@ def oracle(c, out, D):
                 return ("hexagons-ball", "concentric_hexagons(%d, %r) moved on to ring %d with %d nearer chips missing"
                         % (R, start, ds[-1], len(inner - set(pts))))
         return None
+    if fn == "from_vector":
+        inv = {v: l for l, v in VEC.items()}
+        if tuple(c["v"]) in inv and r != inv[tuple(c["v"])]:
+            return ("links-from-to-vector", "from_vector(%r) = %r" % (c["v"], r))
+        return None
     if fn == "to_xyz":
         if to2d(r) != tuple(c["xy"]):
             return ("to-xyz", "to_xyz(%r) = %r" % (c["xy"], r))
@@ -239,7 +269,7 @@ def script(rng, style, i=0):
     if style == "prefer":
         ks = [TWO53 - 1] * 4
         ks[i % 4] = 0
-        return ks, [0, 10 ** 6 + 5, rng.randrange(0, 1000)][(i // 4) % 3]
+        return ks, ["lo", "hi", rng.randrange(0, 1000)][(i // 4) % 3]     # each end of randint's range forced
     if style == "ties":
         k = rng.choice([0, TWO53 - 1, rng.randrange(TWO53)])
         return [k] * 4, rng.randrange(0, 1000)
@@ -449,6 +479,61 @@ def gen_phase1(chk):
         b = (a[0] + rng.randint(-m, m), a[1] + rng.randint(-m, m))
         cases.append(dict(fn="mesh_len", s=rep(rng, a, 50), d=rep(rng, b, 50)))
         cases.append(dict(fn="mesh_path", s=rep(rng, a, 50), d=rep(rng, b, 50)))
+    # big numbers: one dimension up to 2^60 with a small other one, components beyond 2^53 (where floats
+    # stop being exact); every tie-break preference and both ends of the spiral draw are forced
+    for i in range(60 if quick else 1500):
+        small = rng.choice([1, 2, 3, 3, 4, 5, 7])
+        big = rng.choice([2 ** 58, 2 ** 60, 2 ** 55 + 1, rng.randint(2 ** 55, 2 ** 60), rng.randint(2 ** 55, 2 ** 60) | 1])
+        w, h = (small, big) if i % 2 else (big, small)
+        a = (rng.randrange(w), rng.randrange(h))
+        far = rng.choice([rng.randint(2 ** 53, big // 2), big // 2 - rng.randint(0, 9), big // 5 + rng.randint(0, 9),
+                          rng.randint(2 ** 53, big - 1)])
+        b = ((a[0] + rng.randrange(w)) % w, (a[1] + far) % h) if i % 2 else ((a[0] + far) % w, (a[1] + rng.randrange(h)) % h)
+        cases.append(dict(fn="torus_len", s=rep(rng, a), d=rep(rng, b), w=w, h=h, big=True))
+        for j, t in enumerate(["lo", "hi", rng.randrange(10 ** 18)]):
+            ks = [TWO53 - 1] * 4
+            ks[(i + j) % 4] = 0
+            cases.append(dict(fn="torus_path", s=rep(rng, a), d=rep(rng, b), w=w, h=h, ks=ks, t=t,
+                              a=list(a), b=list(b), big=True))
+        cases.append(dict(fn="mesh_len", s=rep(rng, a, 2 ** 54), d=rep(rng, b, 2 ** 54), big=True))
+        cases.append(dict(fn="mesh_path", s=rep(rng, a, 2 ** 54), d=rep(rng, b, 2 ** 54), big=True))
+        cases.append(dict(fn="minimise", v=[rng.randint(-2 ** 60, 2 ** 60) for _ in range(3)], big=True))
+    # coordinate containers: the library only indexes / unpacks its coordinate arguments, so lists, numpy
+    # integer arrays (rows of a table), tuples of numpy scalars and mixtures are inside the domain
+    CF = ["tuple", "list", "ndarray", "ndarray32", "row", "npscalars"]
+    for i in range(700 if quick else 8000):
+        fn = ["mesh_len", "mesh_path", "torus_len", "torus_path", "ldf", "minimise", "to_xyz", "hex",
+              "from_vector"][i % 9]
+        f1, f2 = rng.choice(CF), rng.choice(CF)
+        if i % 4 == 0:
+            f1 = f2 = rng.choice(CF[2:])
+        w, h = rng.randint(1, 9), rng.randint(1, 9)
+        a = (rng.randrange(w), rng.randrange(h))
+        b = a if i % 5 == 0 else (rng.randrange(w), rng.randrange(h))
+        s3, d3 = rep(rng, a), rep(rng, b)
+        if i % 10 == 0:
+            d3 = list(s3)                     # equal coordinates in different containers
+        if fn in ("mesh_len", "mesh_path"):
+            c = dict(fn=fn, s=s3, d=d3, forms=dict(s=f1, d=f2))
+        elif fn == "torus_len":
+            c = dict(fn=fn, s=s3, d=d3, w=w, h=h, forms=dict(s=f1, d=f2))
+        elif fn == "torus_path":
+            ks, t = script(rng, rng.choice(["random", "prefer"]), i)
+            c = dict(fn=fn, s=s3, d=d3, w=w, h=h, ks=ks, t=t, a=list(a), b=list(b), forms=dict(s=f1, d=f2))
+        elif fn == "ldf":
+            c = dict(fn=fn, v=[rng.choice([0, rng.randint(-4, 4)]) for _ in range(3)],
+                     start=[rng.randint(-2, 8), rng.randint(-2, 8)], width=rng.choice([None, w]),
+                     height=rng.choice([None, h]), ks=[rng.randrange(TWO53) for _ in range(3)],
+                     forms=dict(v=f1, start=f2))
+        elif fn == "minimise":
+            c = dict(fn=fn, v=[rng.randint(-9, 9) for _ in range(3)], forms=dict(v=f1))
+        elif fn == "to_xyz":
+            c = dict(fn=fn, xy=[rng.randint(-9, 9), rng.randint(-9, 9)], forms=dict(xy=f1))
+        elif fn == "hex":
+            c = dict(fn=fn, radius=rng.randint(0, 4), start=[rng.randint(-5, 5), rng.randint(-5, 5)], forms=dict(start=f1))
+        else:
+            c = dict(fn=fn, v=[rng.randint(-3, 3), rng.randint(-3, 3)], forms=dict(v=f1))
+        cases.append(c)
     # kernels
     for _ in range(200 if quick else 3000):
         cases.append(dict(fn="minimise", v=[rng.randint(-9, 9) for _ in range(3)]))
@@ -551,6 +636,8 @@ def coq_expr(c, o):
         return "concentric_hexagons %s %s" % (zlit(c["radius"]), v2(c["start"]))
     if fn == "hexprefix":
         return "firstn %d (concentric_hexagons %s %s)" % (c["n"], zlit(c["radius"]), v2(c["start"]))
+    if fn == "from_vector":
+        return "links_from_vector %s" % v2(c["v"])
     if fn == "to_xyz":
         return "to_xyz %s" % v2(c["xy"])
     if fn == "minimise":
@@ -566,6 +653,8 @@ def canon_model(c, v):
     fn = c["fn"]
     if fn in ("mesh_len",):
         return ["ok", v]
+    if fn == "from_vector":
+        return ["ok", unopt(v)]
     if fn in ("mesh_path", "to_xyz", "minimise"):
         return ["ok", list(v)]
     if fn == "torus_len":
@@ -656,6 +745,10 @@ def process(chk, D, state, cases, outs):
             chk.count("torus:thin(w or h <= 2)" if min(c["w"], c["h"]) <= 2 else "torus:w,h >= 3")
             if fn == "torus_path" and o[0] == "ok":
                 chk.count("torus_path:spiral-draw" if o[1]["requests"] else "torus_path:no-spiral-draw")
+        if c.get("big"):
+            chk.count("big-numbers(>=2^53):" + fn)
+        for k_, f_ in sorted(c.get("forms", {}).items()):
+            chk.count("container:" + f_)
         if "hist" in c:
             chk.count("in-history:" + fn)
             if c.get("form", "tuple") not in ("tuple", "list"):
@@ -767,7 +860,11 @@ def run(chk, args):
         "random mesh pairs with coordinates in [-90, 90], random and router-produced vectors walked "
         "longest-dimension-first with width/height None or 1..9, one exhaustive link-table case "
         "(from_vector on [-5,5]^2, wrap-around collapse on every torus 3..6 x 3..6), concentric_hexagons for every "
-        "radius 0..%d; histories of calls in one interpreter (hexagon generators abandoned / suspended inside a "
+        "radius 0..%d; a big-number stream (tori with one dimension up to 2^60 and the other <= 7, components beyond "
+        "2^53, each approach preferred and both ends of the spiral randint forced; distance by the least "
+        "lattice translate, which is compared with BFS on every graph that is searched); a container stream "
+        "(coordinates as list / numpy int64 / int32 arrays / table rows / tuples of numpy scalars / mixtures to "
+        "every function); histories of calls in one interpreter (hexagon generators abandoned / suspended inside a "
         "ring nobody walked before, interleaved generators, arguments as tuple / list / generator / map / "
         "iterator, returned lists modified in place by the caller before the next call), every call judged "
         "on its own; malformed stream: zero width/height.  BFS on the explicit graph decides every output.  "
